@@ -87,6 +87,11 @@ Definition V_ID_REPORTED_AGAIN : N := 42.    Definition V_SETUP_TWICE : N := 43.
 Definition V_END_TWICE : N := 50.            Definition V_END_MISSING : N := 51.
 Definition V_END_NEVER_REPORTED : N := 52.
 Definition V_DELIVER_BEFORE_SETUP : N := 60.
+Definition V_TIMER_IN_TIMERLESS_STATE : N := 80.
+
+(* the states in which a connection waits with a handshake timer of its own phase *)
+Definition timer_state (s : N) : bool :=
+  N.eqb s 2 || N.eqb s 4 || N.eqb s 8 || N.eqb s 11 || N.eqb s 20 || N.eqb s 21 || N.eqb s 22 || N.eqb s 36.
 
 Definition acc_of (e : cev) : option accc :=
   match e with CRecv NotDatagram NoClose (MAcc a) => Some a | _ => None end.
@@ -149,6 +154,8 @@ Definition mstep (m : ms) (o : cobs) : ms :=
   | BSnap s _ armed _ _ =>
       (* at rest *)
       let m := flag V_TIMER_AFTER_TERMINAL (negb (m_term m) || negb armed) m in
+      (* C14, last sentence: a phase that has been left in time leaves no timer behind *)
+      let m := flag V_TIMER_IN_TIMERLESS_STATE (negb armed || timer_state s) m in
       let m := flag V_END_MISSING (negb (m_closed m) || negb (N.eqb (m_ncb m) 0)) m in
       if m_isdef m then
         let m := flag V_NOT_CLOSED_AFTER_TERMINAL (negb (m_term m) || m_closed m) m in
@@ -162,7 +169,7 @@ Definition mon_run (m : ms) (tr : list cobs) : ms := fold_left mstep tr m.
 (* violations of one property only: code ranges 10-19 C01, 20-29 C04, 30-39 C08, 40-49 C09,
    50-59 C11, 60-69 C06 *)
 Definition all_codes : list N :=
-  [10;11;12;13;20;21;22;23;24;30;31;40;41;42;43;50;51;52;60].
+  [10;11;12;13;20;21;22;23;24;30;31;40;41;42;43;50;51;52;60;80].
 Definition viol_codes (m : ms) : list N := filter (fun c => N.testbit (m_viol m) c) all_codes.
 Definition viol_in (lo hi : N) (m : ms) : list N :=
   filter (fun c => (lo <=? c) && (c <=? hi)) (viol_codes m).
